@@ -18,6 +18,15 @@ theorem lines_stable : Stable linesCodec := linesCodec_stable
 /-- the length-prefixed test codec satisfies the codec law -/
 theorem lenprefix_stable : Stable lenCodec := lenCodec_stable
 
+/-- … and so does the second length-prefixed test codec, whose `decode_eof` emits several
+end-of-stream frames (a truncated frame as a `T`-frame, then one `E`-frame on the empty buffer) -/
+theorem lenx_stable : Stable lenxCodec := lenxCodec_stable
+
+/-- all end-of-stream frames come out, in order, then `None`: `[2, 7]` is a truncated frame -/
+example : (pollN lenxCodec 6 (rinit [.data [1, 9, 2], .pending, .data [7]])).1 =
+    [.item [9], .pending, .item [84, 2, 7], .item [69], .none, .none] := by decide
+example : whole lenxCodec 3 [1, 9, 2, 7] = [.item [9], .item [84, 2, 7], .item [69], .none] := by decide
+
 example : linesCodec.decode [97, 10, 98] = .frame [97] [98] := by decide
 example : lenCodec.decode [2, 7, 8, 9] = .frame [7, 8] [9] := by decide
 example : lenCodec.decode [255, 1] = .err .InvalidInput [1] := by decide
